@@ -71,7 +71,7 @@ CFG = {
                   "hold the same state whenever the same non-empty text is left; OracleOK only), scan_keeps_path_or_resets, deferred_segment_leaves_fields; Witness.C16StateEarly (the store before the early "
                   "return leaves the path and changes the lines). Props.C16DrawAll: text_draw_exactly_the_lines (scanner result explicit, every Max.Width), rich_draw_wide_grapheme_exception / "
                   "text_draw_single_grapheme_row (the single grapheme wider than Max.Width - the exception of the property text - is drawn at column 0 of its row), wide_grapheme_at_width_one. "
-                  "Props.C16Exec.executed_rich_draw_shows_the_lines: the regenerated bodies of RichText.drawSoftwrap and findContainerSize, EXECUTED on the lines of the scanner model, return a surface whose row y shows line y (C14Body x C16Draw joined). The soft-wrap Draw loops are now tied by execution: Props.C14Body runs the regenerated bodies of both drawSoftwrap / findContainerSize and proves them equal to Layout.drawText. "
+                  "Props.C16Exec.executed_rich_draw_shows_the_lines / executed_text_draw_shows_the_lines: the regenerated bodies of RichText.drawSoftwrap and findContainerSize, EXECUTED on the lines of the scanner model, return a surface whose row y shows line y (C14Body x C16Draw joined). The soft-wrap Draw loops are now tied by execution: Props.C14Body runs the regenerated bodies of both drawSoftwrap / findContainerSize and proves them equal to Layout.drawText. "
                   "FINDING F716 (recorded, MB stream): richtext.SoftwrapScanner does not end the line at U+2028 / U+2029 / U+0085 / VT / FF (uniseg.HasTrailingLineBreak is false there while "
                   "FirstLineSegment must-breaks; text.SoftwrapScanner ends the line); the hard modes not breaking there is not a C16 violation (they draw the lines their own splitter emits).",
     "level_note": "Validated by correspondence only: that the real uniseg meets OracleOK / OracleTermW / PosIndep on the generated texts (asserted per "
